@@ -572,6 +572,13 @@ func CheckC17(p *Pkg, e *Env, r *res.Result) {
 			cf.Set(reflect.MakeFunc(cf.Type(), func(args []reflect.Value) []reflect.Value {
 				gotMethods = append(gotMethods, append([]string{}, args[0].Interface().([]string)...))
 				gotHeaders = append(gotHeaders, append([]string{}, args[1].Interface().([]string)...))
+				// the handler factory owns its arguments (filtering them in place is a common
+				// idiom): the next preflight must get fresh, correct lists all the same
+				for _, a := range args[:2] {
+					for i := 0; i < a.Len(); i++ {
+						a.Index(i).SetString("scrambled-by-the-previous-preflight")
+					}
+				}
 				var hh http.Handler = http.HandlerFunc(func(w http.ResponseWriter, r *http.Request) {
 					served++
 					w.Header().Set("X-Cors-Marker", "yes")
@@ -612,88 +619,90 @@ func CheckC17(p *Pkg, e *Env, r *res.Result) {
 				r.Label("skipped:shadowed-template")
 				continue
 			}
-			req := httptest.NewRequest("OPTIONS", "http://h.example/", nil)
-			req.URL.Path = path
-			sh.Apply(req, validCreds)
-			in.Reset()
-			gotMethods, gotHeaders, served, mwRuns = nil, nil, 0, 0
-			rec, pan := in.Serve(req)
-			r.Evaluations++
-			ownOptions := pi.Op("OPTIONS") != nil
-			wantM, wantH := refmodel.CORSExpected(p.Doc, pi)
-			// is OPTIONS routed to some other (less literal) template declaring OPTIONS?
-			other := refmodel.Route(p.Doc, p.BasePath, "OPTIONS", path)
-			fail := ""
-			state := ""
-			switch {
-			case pan != "":
-				fail = "panic: " + firstLine(pan)
-			case ownOptions:
-				state = "own-options"
-				if len(in.Calls) != 1 || in.Calls[0].Op.Template != tpl || in.Calls[0].Op.Method != "OPTIONS" {
-					fail = fmt.Sprintf("declared OPTIONS operation was not dispatched (%d handler calls, cors handler calls %d)", len(in.Calls), len(gotMethods))
-				} else if len(gotMethods) > 0 {
-					fail = "CORS handler was constructed although the path declares its own OPTIONS operation"
-				}
-			case p.Cfg.Cors && handlerSet && cf.IsValid():
-				state = "preflight"
+			for rep := 0; rep < 2; rep++ { // every preflight twice
+				req := httptest.NewRequest("OPTIONS", "http://h.example/", nil)
+				req.URL.Path = path
+				sh.Apply(req, validCreds)
+				in.Reset()
+				gotMethods, gotHeaders, served, mwRuns = nil, nil, 0, 0
+				rec, pan := in.Serve(req)
+				r.Evaluations++
+				ownOptions := pi.Op("OPTIONS") != nil
+				wantM, wantH := refmodel.CORSExpected(p.Doc, pi)
+				// is OPTIONS routed to some other (less literal) template declaring OPTIONS?
+				other := refmodel.Route(p.Doc, p.BasePath, "OPTIONS", path)
+				fail := ""
+				state := ""
 				switch {
-				case len(gotMethods) != 1 || served != 1:
-					fail = fmt.Sprintf("CORS handler constructed %d times and served %d times, want once each (status %d, handler calls %d)", len(gotMethods), served, rec.Code, len(in.Calls))
-				case !sameSet(gotMethods[0], wantM):
-					fail = fmt.Sprintf("methods %v, want the set %v", gotMethods[0], wantM)
-				case !sameSet(gotHeaders[0], wantH):
-					fail = fmt.Sprintf("headers %v, want the set %v", gotHeaders[0], wantH)
-				case rec.Header().Get("X-Cors-Marker") != "yes" || rec.Code != 204:
-					fail = "the response is not what the CORS handler wrote"
-				case mwRuns != 0:
-					fail = "preflight passed through user middlewares"
+				case pan != "":
+					fail = "panic: " + firstLine(pan)
+				case ownOptions:
+					state = "own-options"
+					if len(in.Calls) != 1 || in.Calls[0].Op.Template != tpl || in.Calls[0].Op.Method != "OPTIONS" {
+						fail = fmt.Sprintf("declared OPTIONS operation was not dispatched (%d handler calls, cors handler calls %d)", len(in.Calls), len(gotMethods))
+					} else if len(gotMethods) > 0 {
+						fail = "CORS handler was constructed although the path declares its own OPTIONS operation"
+					}
+				case p.Cfg.Cors && handlerSet && cf.IsValid():
+					state = "preflight"
+					switch {
+					case len(gotMethods) != 1 || served != 1:
+						fail = fmt.Sprintf("CORS handler constructed %d times and served %d times, want once each (status %d, handler calls %d)", len(gotMethods), served, rec.Code, len(in.Calls))
+					case !sameSet(gotMethods[0], wantM):
+						fail = fmt.Sprintf("methods %v, want the set %v", gotMethods[0], wantM)
+					case !sameSet(gotHeaders[0], wantH):
+						fail = fmt.Sprintf("headers %v, want the set %v", gotHeaders[0], wantH)
+					case rec.Header().Get("X-Cors-Marker") != "yes" || rec.Code != 204:
+						fail = "the response is not what the CORS handler wrote"
+					case mwRuns != 0:
+						fail = "preflight passed through user middlewares"
+					}
+				default:
+					state = "no-cors"
+					if other.Dispatch != nil && other.Dispatch.Template != tpl && !p.Cfg.Cors {
+						// cors off and a less literal template declares OPTIONS: plain routing, method
+						// fallback (both outcomes admissible, C03). With cors on the statement is
+						// explicit: without a CORS handler the preflight is not found.
+						r.Label("skipped:method-fallback")
+						continue
+					}
+					if len(in.Calls) != 0 || rec.Code != 404 || len(gotMethods) != 0 {
+						fail = fmt.Sprintf("want the not-found outcome (cors=%v, handler set=%v): status %d, handler calls %d, cors handler calls %d", p.Cfg.Cors, handlerSet, rec.Code, len(in.Calls), len(gotMethods))
+					}
 				}
-			default:
-				state = "no-cors"
-				if other.Dispatch != nil && other.Dispatch.Template != tpl && !p.Cfg.Cors {
-					// cors off and a less literal template declares OPTIONS: plain routing, method
-					// fallback (both outcomes admissible, C03). With cors on the statement is
-					// explicit: without a CORS handler the preflight is not found.
-					r.Label("skipped:method-fallback")
-					continue
+				if len(wantM) >= 2 || len(wantH) >= 1 {
+					r.NonTrivial("C17", p.Index, tpl, state, handlerSet)
 				}
-				if len(in.Calls) != 0 || rec.Code != 404 || len(gotMethods) != 0 {
-					fail = fmt.Sprintf("want the not-found outcome (cors=%v, handler set=%v): status %d, handler calls %d, cors handler calls %d", p.Cfg.Cors, handlerSet, rec.Code, len(in.Calls), len(gotMethods))
-				}
-			}
-			if len(wantM) >= 2 || len(wantH) >= 1 {
-				r.NonTrivial("C17", p.Index, tpl, state, handlerSet)
-			}
-			r.Label("state:" + state)
-			if fail != "" {
-				kind := "cors:" + state
-				if state == "no-cors" && p.Cfg.Cors && !handlerSet && other.Dispatch != nil && other.Dispatch.Template != tpl && len(in.Calls) == 1 && in.Calls[0].Op.Template == other.Dispatch.Template {
-					// the preflight of a path without OPTIONS was served by a less literal
-					// template's own OPTIONS operation; where the two templates part decides
-					// which code path did it
-					ts, os := strings.Split(tpl, "/"), strings.Split(other.Dispatch.Template, "/")
-					div := len(ts) - 1
-					for i := range ts {
-						if i < len(os) && ts[i] != os[i] {
-							div = i
-							break
+				r.Label("state:" + state)
+				if fail != "" {
+					kind := "cors:" + state
+					if state == "no-cors" && p.Cfg.Cors && !handlerSet && other.Dispatch != nil && other.Dispatch.Template != tpl && len(in.Calls) == 1 && in.Calls[0].Op.Template == other.Dispatch.Template {
+						// the preflight of a path without OPTIONS was served by a less literal
+						// template's own OPTIONS operation; where the two templates part decides
+						// which code path did it
+						ts, os := strings.Split(tpl, "/"), strings.Split(other.Dispatch.Template, "/")
+						div := len(ts) - 1
+						for i := range ts {
+							if i < len(os) && ts[i] != os[i] {
+								div = i
+								break
+							}
+						}
+						if div == len(ts)-1 {
+							kind = "cors:no-cors:served-by-sibling-options:last-segment"
+						} else {
+							kind = "cors:no-cors:served-by-sibling-options:earlier-segment"
 						}
 					}
-					if div == len(ts)-1 {
-						kind = "cors:no-cors:served-by-sibling-options:last-segment"
-					} else {
-						kind = "cors:no-cors:served-by-sibling-options:earlier-segment"
+					f := res.Failure{Property: "C17", Kind: kind, Clause: "cors",
+						Detail: fmt.Sprintf("path %s (cors=%v, handler set=%v, own OPTIONS=%v) expected methods %v headers %v: %s", tpl, p.Cfg.Cors, handlerSet, ownOptions, wantM, wantH, fail),
+						Replay: p.SpecReplay(map[string]any{"request.txt": "OPTIONS " + path})}
+					if !FailOrKnown(p, e, r, f) {
+						return
 					}
+				} else if state == "preflight" {
+					r.Sample(map[string]any{"path": tpl, "methods": wantM, "headers": wantH, "verdict": "CORS handler got exactly these sets"}, 5)
 				}
-				f := res.Failure{Property: "C17", Kind: kind, Clause: "cors",
-					Detail: fmt.Sprintf("path %s (cors=%v, handler set=%v, own OPTIONS=%v) expected methods %v headers %v: %s", tpl, p.Cfg.Cors, handlerSet, ownOptions, wantM, wantH, fail),
-					Replay: p.SpecReplay(map[string]any{"request.txt": "OPTIONS " + path})}
-				if !FailOrKnown(p, e, r, f) {
-					return
-				}
-			} else if state == "preflight" {
-				r.Sample(map[string]any{"path": tpl, "methods": wantM, "headers": wantH, "verdict": "CORS handler got exactly these sets"}, 5)
 			}
 		}
 	}
